@@ -4,7 +4,8 @@
 (*                                                                         *)
 (* An object (transaction, block, header, state root, extensible and       *)
 (* consensus payload, notary request, execution result, NEF, manifest,     *)
-(* contract state, trie node, witness rule, stack item) enters the node as *)
+(* contract state, trie node, witness rule, signer, stack item) enters the *)
+(* node as                                                                 *)
 (* BYTES and then travels along a PATH: a finite sequence of TRANSPORTS    *)
 (*   p2p        network.Message encode / decode (compressed above 1024)    *)
 (*   block      body of a block.Block                                      *)
@@ -16,6 +17,9 @@
 (*   frombytes  New...FromBytes of the object's own Bytes()                *)
 (*   item       stack item form (ToStackItem / FromStackItem), the DB form *)
 (*              of manifests, contract states and rules inside the VM      *)
+(*   encode     the object is asked for its bytes / JSON and KEPT (what    *)
+(*              storing, relaying and answering a request do to the        *)
+(*              object that stays in memory)                               *)
 (*                                                                         *)
 (* ABSTRACT LEVEL (the judge; nothing but what the statement says).        *)
 (* A content c has ONE canonical encoding Canon(c); its hash is the digest *)
@@ -48,7 +52,7 @@ CONSTANTS Kinds,     \* object kinds explored in this run
 
 AllDev == {"HashReceivedBytes", "SizeBeforeScripts", "JsonDropsField", "DbTruncatesEvents", "CompressEdge",
            "HashSkipsField", "CopyKeepsMemo"}
-AllQuirks == {"SizeOfReceived"}
+AllQuirks == {"SizeOfReceived", "EncodeMarksObject", "JsonLosesArgs"}
 ASSUME Dev \subseteq AllDev /\ Quirks \subseteq AllQuirks /\ K \in 1..6 /\ Mode \in {"mc", "enum"}
 
 NoMemo == <<"-">>
@@ -58,7 +62,7 @@ WitSize == 7
 
 (* ------------------------------------------------------------------ kinds *)
 AllKinds == {"tx", "block", "header", "stateroot", "extensible", "consensus", "notaryreq", "aer", "nef", "manifest",
-             "contract", "mptnode", "rule", "item"}
+             "contract", "mptnode", "rule", "signer", "item"}
 Transports(k) ==
     CASE k = "tx"         -> {"p2p", "block", "pool", "db", "json", "reenc", "copy", "frombytes"}
       [] k = "block"      -> {"p2p", "db", "json", "reenc"}
@@ -73,9 +77,11 @@ Transports(k) ==
       [] k = "contract"   -> {"db", "json", "item"}
       [] k = "mptnode"    -> {"p2p", "db", "json", "reenc", "copy"}
       [] k = "rule"       -> {"block", "json", "reenc", "copy", "item"}
+      [] k = "signer"     -> {"block", "json", "reenc", "copy", "item"}
       [] k = "item"       -> {"db", "json", "reenc", "copy"}
 (* kinds with few transports are explored one step deeper *)
 KOf(k) == IF Cardinality(Transports(k)) > 5 THEN K ELSE K + 1
+AllTransports(k) == Transports(k) \cup {"encode"}
 HasHash(k) == k \in {"tx", "block", "header", "stateroot", "extensible", "consensus", "notaryreq", "nef", "mptnode"}
 HasSize(k) == k \in {"tx", "block", "mptnode"}
 (* kinds whose JSON decoder re-computes the hash and compares it with the declared one *)
@@ -87,11 +93,12 @@ ArrivesFromBytes(k) == k = "tx"
 HasNC(k) == k \in {"tx", "block", "notaryreq", "extensible", "consensus"}
 
 (* ---------------------------------------------------------------- contents *)
-(* sig: the signed part; wit: what is carried but not hashed; opt: a field of the signed part that only some forms carry
-   (NotaryAssisted.NKeys, Conflicts.Hash, PrevStateRoot, ...); ev: events of an execution result; zc: size class *)
+(* sig: the signed part; wit: what is carried but not hashed; opt: a field that only some forms carry (NotaryAssisted.NKeys,
+   Conflicts.Hash, PrevStateRoot, the arguments of a recorded invocation ...); ev: events / invocations of an execution
+   result; zc: size class; mark: a bit of the in-memory object that is no part of any encoding (must stay FALSE) *)
 Contents(k) ==
-    IF Mode = "enum" THEN {[sig |-> "s", wit |-> "w", opt |-> TRUE, ev |-> IF k = "aer" THEN 2 ELSE 0, zc |-> "small"]}
-    ELSE [sig : {"s"}, wit : {"w"}, opt : BOOLEAN,
+    IF Mode = "enum" THEN {[sig |-> "s", wit |-> "w", opt |-> TRUE, ev |-> e, zc |-> "small", mark |-> FALSE] : e \in IF k = "aer" THEN {0, 2} ELSE {0}}
+    ELSE [sig : {"s"}, wit : {"w"}, opt : BOOLEAN, mark : {FALSE},
           ev  : IF k = "aer" THEN {0, 2} ELSE {0},
           zc  : IF "p2p" \in Transports(k) THEN {"small", "edge", "big"} ELSE {"small"}]
 Base(zc) == CASE zc = "small" -> 100 [] zc = "edge" -> Threshold [] zc = "big" -> 3000
@@ -141,7 +148,8 @@ DB(k, o) ==
     LET c2 == IF "DbTruncatesEvents" \in Dev /\ o.c.ev > 1 THEN [o.c EXCEPT !.ev = 1] ELSE o.c
     IN Ok(DecBinary(Canon(c2)))
 JSON(k, o) ==
-    LET doc == [c    |-> IF "JsonDropsField" \in Dev THEN [o.c EXCEPT !.opt = FALSE] ELSE o.c,
+    LET doc == [c    |-> IF "JsonDropsField" \in Dev \/ ("JsonLosesArgs" \in Quirks /\ k = "aer" /\ o.c.ev > 0)
+                         THEN [o.c EXCEPT !.opt = FALSE] ELSE o.c,
                 hash |-> ReportedHash(o), size |-> ReportedSize(o)]
         c2 == doc.c
     IN IF JsonChecksHash(k) /\ ImplH(c2) # doc.hash THEN Refuse(o)
@@ -153,11 +161,14 @@ Reenc(k, o) == Ok(DecBinary(Canon(o.c)))
 Copy(k, o) == Ok(IF "CopyKeepsMemo" \in Dev THEN Obj(o.c, <<"H", "stale">>, o.ms) ELSE Obj(o.c, NoMemo, NoSize))
 FromBytes(k, o) == Ok(DecFromBytes(Canon(o.c)))
 Item(k, o) == Ok(Obj(o.c, NoMemo, NoSize))
+(* AppExecResult.EncodeBinaryWithContext sets the "invocations saved" bit in the VMState of the object it encodes *)
+Encode(k, o) == Ok(IF "EncodeMarksObject" \in Quirks /\ k = "aer" /\ o.c.ev > 0 THEN [o EXCEPT !.c.mark = TRUE]
+                   ELSE Obj(o.c, ReportedHash(o), ReportedSize(o)))
 
 Apply(t, k, o) ==
     CASE t = "p2p" -> P2P(k, o) [] t = "block" -> Body(k, o) [] t = "pool" -> Pool(k, o) [] t = "db" -> DB(k, o)
       [] t = "json" -> JSON(k, o) [] t = "reenc" -> Reenc(k, o) [] t = "copy" -> Copy(k, o)
-      [] t = "frombytes" -> FromBytes(k, o) [] t = "item" -> Item(k, o)
+      [] t = "frombytes" -> FromBytes(k, o) [] t = "item" -> Item(k, o) [] t = "encode" -> Encode(k, o)
 
 (* ------------------------------------------------------------------ machine *)
 VARIABLES kind, b0, obj, twin, n, m, failed, path
@@ -184,7 +195,7 @@ MoveTwin(t) ==
          /\ failed' = (IF r.ok THEN "none" ELSE t)
     /\ m' = m + 1
     /\ UNCHANGED <<kind, b0, obj, n, path>>
-Next == \E t \in Transports(kind) : Move(t) \/ MoveTwin(t)
+Next == \E t \in (IF Mode = "enum" THEN Transports(kind) ELSE AllTransports(kind)) : Move(t) \/ MoveTwin(t)
 Spec == Init /\ [][Next]_vars
 
 (* ---------------------------------------------------------- abstract level *)
